@@ -31,6 +31,9 @@ KEY_MIXPP = 'Cache2D_mod.mixture_point_pos:rho-is-None'
 KEY_MIXSYM = 'Cache2D_mod.mixture_symmetric_point_pos:wrong-parameter-vector'
 
 PDF1 = ['exponential', 'gamma', 'lognormal', 'beta']
+FN = {'int1': 'Cache1D.integrate', 'pp1': 'Cache1D.integrate_point_pos', 'int2': 'Cache2D.integrate', 'pp2': 'Cache2D.integrate_point_pos',
+      'sympp2': 'Cache2D.integrate_symmetric_point_pos', 'mix': 'DFE.mixture', 'mixsym': 'DFE.mixture_symmetric_point_pos',
+      'mixpp': 'Cache2D_mod.mixture_point_pos', 'vourlaki': 'DFE.Vourlaki_mixture'}
 
 # ------------------------------------------------------------------------------------------------------------
 def run_impl(payload, timeout):
@@ -426,8 +429,15 @@ def scenarios(ctx):
         if rp.get('input') and 'scenario' in rp['input']:
             sc = rp['input']['scenario']; sc['id'] = 0
             scs = [sc]
-    res = run_impl({'mode': 'scen', 'scenarios': scs}, timeout=ctx.pick(600, 1800))
-    byid = {r['id']: r for r in res}
+    # the scenarios are independent: run them in up to 5 driver processes (heaviest first, round robin)
+    from concurrent.futures import ThreadPoolExecutor
+    cost = lambda sc: len(sc['ops']) * (8 if sc['family'] == 'mix' else 3 if sc['family'].startswith('2d') else 1) + sc['gamma_pts'] / 50.0
+    order = sorted(scs, key=cost, reverse=True)
+    nproc = min(5, len(order))
+    chunks = [order[i::nproc] for i in range(nproc)]
+    with ThreadPoolExecutor(max_workers=nproc) as ex:
+        parts = list(ex.map(lambda ch: run_impl({'mode': 'scen', 'scenarios': ch}, timeout=ctx.pick(600, 1800)), chunks))
+    byid = {r['id']: r for part in parts for r in part}
     files = []
     meta = {}        # case id -> (sc, op, variant)
     cid = 0
@@ -478,7 +488,7 @@ def scenarios(ctx):
             if 'error' not in rec and not finite:
                 ctx.count('non-finite result')
                 key = KEY_MIXSYM if op['op'] == 'mixsym' else None
-                violation('%s returned non-finite entries (params=%r)' % (op['op'], op['params']), key, sc, op, {'res': rec.get('res')})
+                violation('%s returned non-finite entries (params=%r)' % (FN[op['op']], op['params']), key, sc, op, {'res': rec.get('res')})
             elif not bad or op['op'] != 'vourlaki':
                 sq = 0.0
                 if op['op'] in ('pp2', 'mixpp'):
@@ -501,9 +511,10 @@ def scenarios(ctx):
             if 'after1' in rec and rec['after1'] != c1:
                 c1 = rec['after1']; kdefs += 1; cur = 'K1_%d' % kdefs
                 body.append('Definition %s := %s.' % (cur, k1_text(c1)))
-        body.append('Definition results := map (fun p => (fst p, dcheck %s (snd p))) [%s].' % (q(TOL), '; '.join('(%d%%Z, case_%d)' % (i, i) for i in ids)))
-        body.append('Eval vm_compute in results.')
-        files.append(('C17_sc_%d' % sc['id'], '\n'.join(body) + '\n'))
+        if ids:
+            body.append('Definition results := map (fun p => (fst p, dcheck %s (snd p))) [%s].' % (q(TOL), '; '.join('(%d%%Z, case_%d)' % (i, i) for i in ids)))
+            body.append('Eval vm_compute in results.')
+            files.append(('C17_sc_%d' % sc['id'], '\n'.join(body) + '\n'))
         predicates(ctx, sc, r, results, violation)
     out = lib.run_case_files(files, timeout=900)
     got = {}
@@ -551,7 +562,7 @@ def scenarios(ctx):
             nbad += 1
             if nbad <= 3:
                 ctx.violation('%s disagrees with the quadrature model (pdf %s/%s, params %r, theta %r)' % (
-                    op['op'], op.get('pdf1'), op.get('pdf2'), op['params'], op.get('theta')),
+                    FN[op['op']], op.get('pdf1'), op.get('pdf2'), op['params'], op.get('theta')),
                     data={'scenario': dict(sc, ops=renumber([o for o in sc['ops'] if o['k'] <= op['k'] and (o['k'] == op['k'] or o['op'] == 'pp1')])),
                           'impl': rec.get('res') or rec.get('error'), 'coq': [(v, got.get(i)) for v, i in lst]}, key=None)
 
@@ -597,7 +608,7 @@ def predicates(ctx, sc, r, results, violation):
                 if not all(close(a, th * bb, scale) for a, bb in zip(v, base)):
                     key = {'pp1': KEY_THETA, 'mixsym': KEY_THETA, 'mixpp': KEY_THETA}.get(op['op'])
                     violation('%s is not linear in theta: f(theta=%r) = %r but %r * f(theta=1) = %r (params=%r)' % (
-                        op['op'], th, v[0], th, th * base[0], op['params']), key, sc, op, {'f_theta': v, 'f_1': base})
+                        FN[op['op']], th, v[0], th, th * base[0], op['params']), key, sc, op, {'f_theta': v, 'f_1': base})
                 else:
                     ctx.count('linear ok')
         # (b) the result does not depend on earlier calls
@@ -616,7 +627,7 @@ def predicates(ctx, sc, r, results, violation):
             p2d = op['params'][-1]
             if 'error' in rec and pa is not None and pb is not None:
                 key = KEY_MIXPP if op['op'] == 'mixpp' else KEY_MIXSYM if op['op'] == 'mixsym' else None
-                violation('%s raised %s although both components evaluate (params=%r)' % (op['op'], rec['error'], op['params']), key, sc, op,
+                violation('%s raised %s although both components evaluate (params=%r)' % (FN[op['op']], rec['error'], op['params']), key, sc, op,
                           {'error': rec['error']})
             elif v is not None and pa is not None and pb is not None:
                 want = [(1 - p2d) * a + p2d * bb for a, bb in zip(pa, pb)]
@@ -624,7 +635,7 @@ def predicates(ctx, sc, r, results, violation):
                 if not all(close(a, w, scale) for a, w in zip(v, want)):
                     key = KEY_MIXSYM if op['op'] == 'mixsym' else None
                     violation('%s is not (1-p2d)*fs1 + p2d*fs2 of its documented components: got %r, components give %r (params=%r)' % (
-                        op['op'], v[0], want[0], op['params']), key, sc, op, {'got': v, 'want': want})
+                        FN[op['op']], v[0], want[0], op['params']), key, sc, op, {'got': v, 'want': want})
                 else:
                     ctx.count('mixture weights ok')
         # (d) selection has no effect: theta * S * total weight
@@ -653,19 +664,21 @@ def predicates(ctx, sc, r, results, violation):
                 want = [op['theta'] * S[e] * tw for e in ents]
                 scale = max(abs(x) for x in v + want)
                 if not all(close(a, w, scale) for a, w in zip(v, want)):
-                    violation('selection-free cache: %s = %r but theta*S*(total quadrature weight %r) = %r' % (op['op'], v[0], tw, want[0]),
+                    violation('selection-free cache: %s = %r but theta*S*(total quadrature weight %r) = %r' % (FN[op['op']], v[0], tw, want[0]),
                               None, sc, op, {'got': v, 'want': want})
                 else:
                     ctx.count('selection-free ok')
                 if sc.get('total_one') and op.get('ext', True):
                     ctx.count('total weight checked against 1')
+                    ctx.notes.append('total quadrature weight %s%r, %d grid points on %r: %.6f (tolerance %g)' % (
+                        op.get('pdf1') or op.get('pdf2'), op['params'], len(xs), sc['gamma_bounds'], tw, sc['total_one']))
                     if abs(tw - 1.0) > sc['total_one']:
                         violation('total quadrature weight of %s%r on a fine grid is %r, not 1 +- %g' % (
                             op.get('pdf1') or op.get('pdf2'), op['params'], tw, sc['total_one']), None, sc, op, {'total_weight': tw})
         # (e) Vourlaki mixture on a selection-free cache with p's: every component has total weight ~ 1 only on fine grids; here: linearity only
         # (f) type and labels
         if v is not None and op['op'] in ('int1', 'int2', 'mix') and not rec.get('is_spectrum'):
-            violation('%s did not return a Spectrum' % op['op'], None, sc, op)
+            violation('%s did not return a Spectrum' % FN[op['op']], None, sc, op)
 
 # ------------------------------------------------------------------------------------------------------------
 # pdf numerics
@@ -728,10 +741,10 @@ def mp_part(ctx, replay_req=None):
     rng = ctx.rng
     workers = ctx.pick([1, 2, 3], list(range(1, 17)))
     splits_s = ctx.pick([1, 2, 3], [1, 2, 3, 4, 5, 6])
-    split_workers = ctx.pick([1, 2], [1, 2, 3, 5, 8, 16])
-    splits = [(k, s) for s in splits_s for k in (split_workers if not ctx.quick else ([1, 2] if s == 3 else [rng.choice([1, 2, 3])]))]
-    if not ctx.quick:
-        splits = [(k, s) for s in splits_s for k in range(1, 17)] if os.environ.get('VERIF_C17_FULL_GRID', '1') == '1' else splits
+    if ctx.quick:          # split_jobs 1..3, each with one worker count from {1,2,3} (split 3 with both 1 and 2)
+        splits = [(k, s) for s in splits_s for k in ([1, 2] if s == 3 else [rng.choice([1, 2, 3])])]
+    else:                  # the full grid: worker counts 1..16 x split_jobs 1..6
+        splits = [(k, s) for s in splits_s for k in range(1, 17)]
     base = {'gamma_bounds': [0.0625, 16.0], 'gamma_pts': 5, 'gamma_pts2': 3, 'additional_gammas': [2.0], 'ns1': [3], 'ns2': [2, 2], 'pts': [6, 8, 10],
             'demog': {'kind': 'cheap', 'c': [0.25, 0.125, 0.5, 1.0, 0.0625]}}
     n2 = base['gamma_pts2'] + 1            # gammas per axis
